@@ -268,6 +268,11 @@ C["C04"]["harnesses"] += [
     H("ZZVerifyFindsDamage", "torrent", "a complete, seeding torrent is verified by hand; the verification finds an arbitrary subset of the pieces: it ends stopped with the completion flag == every piece verified; started again it is Seeding only if every piece verified, else Downloading; lifecycle invariant after every step", T(40, 600, flags=["-nospawn"]), T(40, 600, flags=["-nospawn"]), replay="model"),
 ]
 
+C["C09"]["harnesses"] += [
+    H("ZZPickerStalledThenIdle", "torrent", "rich initial state (arbitrary progress, allowed-fast grant, bitfields, choke state of 2 peers), then one peer's download stalls (snub) and a peer completes its piece (hash ok or not) and asks for the next one - stalled downloads vs the end-game duplicate limit; which peer does what is arbitrary; all request / download-table / no-starvation clauses after every event", T(40, 1800, 6, 6, flags=["-nospawn"]), T(40, 1800, 6, 6, flags=["-nospawn"]), replay="model"),
+    H("ZZPickerChokedThenIdle", "torrent", "the same with a choke instead of the snub", None, T(40, 1800, 6, 6, flags=["-nospawn"]), replay="model"),
+]
+
 # Thorough-only harnesses that were written but whose thorough bounds were never run to completion on the
 # unchanged tree within the time available are not registered (a check is registered only with bounds that ran
 # clean): they stay in the harness files and can be run with bin/gosym directly.
